@@ -32,8 +32,9 @@ int hw_rounding_mode(int fprc) {
 }
 
 inline void use_rounding(int fprc) {
-    int want = hw_rounding_mode(fprc);
-    if (std::fegetround() != want) std::fesetround(want);
+    // Unconditional: fegetround() reports only the x87 control word on x86-64, while code outside the
+    // model may have changed MXCSR alone; never trust a cached or partially read mode.
+    std::fesetround(hw_rounding_mode(fprc));
 }
 
 double fp_add(double a, double b) { volatile double x = a, y = b; volatile double r = x + y; return r; }
